@@ -278,6 +278,9 @@ impl From<Integer> for SignedInteger {
 impl TryFrom<SignedInteger> for u8 {
     type Error = TryFromIntegerError;
     fn try_from(value: SignedInteger) -> Result<u8, Self::Error> {
+        if value.is_neg && value.value.value != 0 {
+            return Err(TryFromIntegerError {});
+        }
         value.value.try_into().map_err(|e| TryFromIntegerError {})
     }
 }
@@ -285,6 +288,9 @@ impl TryFrom<SignedInteger> for u8 {
 impl TryFrom<SignedInteger> for u32 {
     type Error = TryFromIntegerError;
     fn try_from(value: SignedInteger) -> Result<u32, Self::Error> {
+        if value.is_neg && value.value.value != 0 {
+            return Err(TryFromIntegerError {});
+        }
         value.value.try_into().map_err(|e| TryFromIntegerError {})
     }
 }
